@@ -97,13 +97,13 @@ theorem full_insample_bound {cov : Cov ℝ} {x : Mat ℝ n d} {y : Mat ℝ n c} 
     `c` by a jitter-proportional term: `M (w − c) = −jitter · K̃_uu c` with
     `M = jitter·K̃_uu + K_uf K_fu`; hence the in-sample error `K_xu (w − c)` is `O(jitter)`. -/
 theorem dtc_insample_jitter {cov : Cov ℝ} {x : Mat ℝ n d} {xu : Mat ℝ m d} {y : Mat ℝ n c} {mu : ℝ}
-    {sigma : Sigma ℝ m} {jitter : ℝ} {ycf : Option (AnyMat ℝ)} {withUnc : Bool} {s : CondState ℝ m d c}
+    {sigma : Sigma ℝ n} {jitter : ℝ} {ycf : Option (AnyMat ℝ)} {withUnc : Bool} {s : CondState ℝ m d c}
     (h : lmCondInit cov x xu y mu sigma jitter ycf true withUnc = .ok s)
     (C : Matrix (Fin m) (Fin c) ℝ) (hrange : toM (residual y mu) = (toM (gram cov xu x))ᵀ * C) :
     (jitter • (toM (gram cov xu xu) + jitter • (1 : Matrix (Fin m) (Fin m) ℝ))
         + toM (gram cov xu x) * (toM (gram cov xu x))ᵀ) * (toM s.weights - C)
       = -(jitter • ((toM (gram cov xu xu) + jitter • (1 : Matrix (Fin m) (Fin m) ℝ)) * C)) := by
-  obtain ⟨L, N, hLLt, hN, hsolve, _, _, _⟩ := C01.dtc_weights_solve h
+  obtain ⟨L, N, hLLt, hN, hsolve, _, _, _⟩ := C01.dtc_weights_solve h (C01.perCell_mean sigma ycf)
   have hNj : N = jitter • (1 : Matrix (Fin m) (Fin m) ℝ) := by
     unfold C01.dtcNoise at hN
     simp only [if_true] at hN
